@@ -174,7 +174,7 @@ func runFxOwn(m *model.Model, s *ob.Set) {
 		}
 		name := m.FuncName(fn)
 		live := m.Live(fn)
-		n := 0
+		n, nw := 0, 0
 		for _, b := range fn.Blocks {
 			if !live[b.Index] {
 				continue
@@ -182,6 +182,20 @@ func runFxOwn(m *model.Model, s *ob.Set) {
 			for _, in := range b.Instrs {
 				st, ok := in.(*ssa.Store)
 				if !ok {
+					continue
+				}
+				// a whole Decimal copied over another one (*dst = *src): the two then share one mantissa
+				// array. Definite only when both are distinct parameters of an exported function.
+				if ld, isLoad := st.Val.(*ssa.UnOp); isLoad && ld.Op == token.MUL && m.IsDecPtr(st.Addr.Type()) && m.IsDecPtr(ld.X.Type()) {
+					if !m.IsExported(fn) {
+						continue // an unexported helper may be handed a caller's scratch Decimal: not decided here
+					}
+					di, dok := m.RefOf(st.Addr).IsSingleParam()
+					si, sok := m.RefOf(ld.X).IsSingleParam()
+					if dok && sok {
+						nw++
+						s.Check(di == si, R, fmt.Sprintf("%s/struct-copy#%d", name, nw), m.InstrPos(st), "a Decimal copied onto itself", fmt.Sprintf("the whole struct of parameter %d is copied over parameter %d: the two Decimals share one mantissa array from then on (Copy/Set allocate a new one)", si, di))
+					}
 					continue
 				}
 				fa, ok := m.DecField(st.Addr)
